@@ -15,6 +15,10 @@ pub struct Case {
     /// is required of the reused sampler
     #[serde(default)]
     pub prefill: usize,
+    /// if non-empty: the stream is fed alternately by add() and by Extend::extend() with chunks of
+    /// these sizes (0 = an empty iterator), cycling through the list
+    #[serde(default)]
+    pub chunks: Vec<u16>,
 }
 
 fn validate(rs: &ReservoirSampling<u64, ScriptRng>, k: usize, n: usize, seen: &mut Vec<u32>, epoch: u32) -> Result<(), (String, String)> {
@@ -76,10 +80,25 @@ impl Check for C18 {
         // full validation after every add while cheap, then at a stride (plus the phase borders)
         let stride = if c.n * c.k <= 400_000 { 1 } else { (c.n * c.k / 400_000).max(1) };
         let mut checked = 0u64;
-        for i in 0..c.n {
-            if let Err(p) = catch(|| rs.add(i as u64)) {
-                return fail(panic_sig(&p), format!("add #{} panicked: {} [k={}]", i + 1, p, c.k));
+        let mut i = 0usize;
+        let mut turn = 0usize;
+        while i < c.n {
+            // how many items this step feeds, and through which API
+            let step = if c.chunks.is_empty() || turn % 2 == 0 { 1 } else { (c.chunks[(turn / 2) % c.chunks.len()] as usize).min(c.n - i) };
+            let via_extend = !c.chunks.is_empty() && turn % 2 == 1;
+            turn += 1;
+            let r = if via_extend { catch(|| rs.extend((i as u64)..((i + step) as u64))) } else { catch(|| rs.add(i as u64)) };
+            if let Err(p) = r {
+                return fail(panic_sig(&p), format!("{} at item #{} panicked: {} [k={}]", if via_extend { "extend" } else { "add" }, i + 1, p, c.k));
             }
+            if step == 0 {
+                // an empty extend must change nothing
+                if rs.i() != i || rs.reservoir().len() != i.min(c.k) {
+                    return fail("empty-extend-changes-state", format!("extend(empty) after {} items: i() = {}, reservoir().len() = {} [k={}]", i, rs.i(), rs.reservoir().len(), c.k));
+                }
+                continue;
+            }
+            i += step - 1;
             let n = i + 1;
             let border = n <= c.k + 2 || (n + 2 >= 4 * c.k && n <= 4 * c.k + 3);
             if n % stride == 0 || border || n == c.n {
@@ -91,6 +110,7 @@ impl Check for C18 {
             } else if rs.reservoir().len() != n.min(c.k) || rs.i() != n {
                 return fail("len!=min(n,k)", format!("after {} adds len {} i {}", n, rs.reservoir().len(), rs.i()));
             }
+            i += 1;
         }
         let extreme = c.rng.script.iter().any(|&w| w == 0 || w == u64::MAX);
         let three_phases = c.n > 4 * c.k;
@@ -99,6 +119,7 @@ impl Check for C18 {
             .class_if(extreme, "extreme_rng_words")
             .class_if(c.k == 1, "k=1")
             .class_if(c.prefill > 0, "reused_after_clear")
+            .class_if(!c.chunks.is_empty(), "fed_through_extend")
             .class_if(handle.borrow().drawn > 0, "rng_used");
         info.inner_evals = checked;
         Verdict::Pass(info)
@@ -108,8 +129,8 @@ impl Check for C18 {
 fn strategy(tier: Tier) -> BoxedStrategy<Case> {
     let kmax = tier.pick(40usize, 2000usize);
     let nmax = tier.pick(2_000usize, 200_000usize);
-    (prop_oneof![3 => 1usize..=8, 3 => 1usize..=40, 1 => 1usize..=kmax], rng_spec(), any::<u16>(), 0u8..10, prop_oneof![3 => Just(0u16), 1 => any::<u16>()])
-        .prop_map(move |(k, rng, nsel, mode, pre)| {
+    (prop_oneof![3 => 1usize..=8, 3 => 1usize..=40, 1 => 1usize..=kmax], rng_spec(), any::<u16>(), 0u8..10, prop_oneof![3 => Just(0u16), 1 => any::<u16>()], prop_oneof![2 => Just(vec![]), 1 => prop::collection::vec(prop_oneof![Just(0u16), 0u16..6, 0u16..300], 1..6)])
+        .prop_map(move |(k, rng, nsel, mode, pre, chunks)| {
             // n across the three phases and their borders
             let n = match mode {
                 0 => idx(nsel, k + 2),
@@ -121,7 +142,7 @@ fn strategy(tier: Tier) -> BoxedStrategy<Case> {
             };
             // a reused sampler: up to 60k items before the clear()
             let prefill = if pre == 0 { 0 } else { 1 + idx(pre, 60 * k.min(200) + 2) };
-            Case { k, n: n.min(nmax), rng, prefill }
+            Case { k, n: n.min(nmax), rng, prefill, chunks }
         })
         .boxed()
 }
@@ -131,7 +152,7 @@ pub fn checks() -> Vec<Box<dyn DynCheck>> {
 }
 
 pub fn run(ctx: &Ctx) {
-    ctx.set_rule("generated: k in 1..=40 (2000 thorough), n from 0 across k, 4k, 4k+1 up to 50k and beyond, RNG = generated script of extreme words (0, u64::MAX, single bits, random) followed by a seeded PRNG tail; the stream is position ids 0..n; a quarter of the cases first feed up to 60k other items and clear() the sampler (a cleared sampler must be as valid as a fresh one). After every add (large cases: at a stride plus all phase borders): reservoir().len() == min(n,k), every item < n, no position twice, prefix order while n <= k, i() == n, is_empty iff n == 0, no panic. Non-trivial: n > 4k (all three phases) or a script containing 0 / u64::MAX words. Distinct = hash of the case; evaluations = cases + validations.");
+    ctx.set_rule("generated: k in 1..=40 (2000 thorough), n from 0 across k, 4k, 4k+1 up to 50k and beyond, RNG = generated script of extreme words (0, u64::MAX, single bits, random) followed by a seeded PRNG tail; the stream is position ids 0..n; a third of the cases feed the stream alternately through add() and Extend::extend() with generated chunk sizes (incl. empty iterators); a quarter of the cases first feed up to 60k other items and clear() the sampler (a cleared sampler must be as valid as a fresh one). After every add (large cases: at a stride plus all phase borders): reservoir().len() == min(n,k), every item < n, no position twice, prefix order while n <= k, i() == n, is_empty iff n == 0, no panic. Non-trivial: n > 4k (all three phases) or a script containing 0 / u64::MAX words. Distinct = hash of the case; evaluations = cases + validations.");
     ctx.run_regressions(&[&C18]);
     let t = ctx.tier;
     ctx.run_random(&C18, t.pick(3_000_000, 2_000_000), move || strategy(t));
